@@ -2,6 +2,7 @@ package chainsim
 
 import (
 	"bytes"
+	"encoding/binary"
 	"fmt"
 	"os"
 	"sort"
@@ -14,6 +15,7 @@ import (
 
 	"verif/sim/refmodel"
 	"verif/sim/simkit"
+	"verif/sim/simmod"
 )
 
 // Reporter receives oracle verdicts. The harness of one property fails on its own property's verdicts and only
@@ -45,6 +47,8 @@ type Monitor struct {
 	Enabled        map[string]bool
 	signed         map[string][]refmodel.BFTHeader // headers each honest validator key signed (read from the generator DB)
 	expectOwn      map[int]bool
+	nonceBefore    map[int]map[string]uint64
+	poolBefore     map[int][]*blockchain.Transaction // processable transactions of a node right before its generator ran
 	vmu            sync.Mutex
 	verdicts       [][4]string
 	stepAppliedAny bool
@@ -63,6 +67,27 @@ func NewMonitor(w *World, report Reporter) *Monitor {
 	m.signed = map[string][]refmodel.BFTHeader{}
 	m.expectOwn = map[int]bool{}
 	w.S.Hooks.Forged = func(n *Node, _ *blockchain.Block) { m.onForged(n) }
+	m.poolBefore = map[int][]*blockchain.Transaction{}
+	m.nonceBefore = map[int]map[string]uint64{}
+	w.S.Hooks.BeforeForge = func(n *Node) {
+		if !n.IsAdversary {
+			pool := n.Pool.GetProcessable()
+			m.poolBefore[n.ID] = pool
+			nonces := map[string]uint64{}
+			for _, tx := range pool {
+				a := string(tx.SenderAddress())
+				if _, ok := nonces[a]; !ok {
+					// the account nonce in the node's committed application state (state entries live under prefix 0)
+					if v, ok := n.StateDB.Get(append([]byte{0}, simmod.AccountFullKey([]byte(a))...)); ok && len(v) == 8 {
+						nonces[a] = binary.BigEndian.Uint64(v)
+					} else {
+						nonces[a] = 0
+					}
+				}
+			}
+			m.nonceBefore[n.ID] = nonces
+		}
+	}
 	prevAfter := w.S.Hooks.AfterNodeStep
 	w.S.Hooks.AfterNodeStep = func(n *Node, what string) {
 		if prevAfter != nil {
@@ -114,6 +139,19 @@ func (m *Monitor) onEventSync(n *Node, msg interface{}) {
 			return
 		}
 		m.stepApplied[n.ID] = append(m.stepApplied[n.ID], tb)
+		if m.expectOwn[n.ID] && m.isOwnKey(n, e.Block.Header.GeneratorAddress) {
+			// the block this node generated in this step: its payload against the selection rule
+			pool := m.poolBefore[n.ID]
+			if len(pool) > 0 {
+				simkit.Probe("c15_selection_checked_with_nonempty_pool")
+			}
+			if len(e.Block.Transactions) > 0 {
+				simkit.Probe("c15_generated_block_carries_transactions")
+			}
+			if w, msg := CheckSelection(pool, e.Block.Transactions, int(m.W.P.MaxTxSize), m.nonceBefore[n.ID]); w != "" {
+				m.report("C15", "transaction-selection", w, "%s generated block %d/%s with %d transactions (pool had %d processable): %s", n.Name, e.Block.Header.Height, short(e.Block.Header.ID), len(e.Block.Transactions), len(pool), msg)
+			}
+		}
 		m.checkBFT(n, tb)
 		m.checkFinalizedNow(n, tb)
 		if m.Enabled["C05"] {
@@ -542,4 +580,13 @@ func (m *Monitor) onForged(n *Node) {
 		}
 		m.signed[string(v.Address)] = append(list, h)
 	}
+}
+
+func (m *Monitor) isOwnKey(n *Node, addr []byte) bool {
+	for _, v := range n.Keys {
+		if string(v.Address) == string(addr) {
+			return true
+		}
+	}
+	return false
 }
